@@ -197,6 +197,10 @@ def run_case(case, ctx):
     text = f.getvalue()
     if not comments:
         text = "\n".join(l.split("#")[0].rstrip() if "#" in l else l for l in text.split("\n"))
+    if case.get("s", 0) % 3 == 0 and "\nMasses\n" in text:
+        # the unit (or, as LAMMPS' write_data does for other sections, a style) named behind the section keyword
+        text = text.replace("\nMasses\n", "\nMasses  # g/mol\n", 1).replace("\nAtoms\n", "\nAtoms # %s\n" % case["atom_format"], 1)
+        st.count("files_with_a_comment_behind_the_section_keywords")
     # the masses as printed are what the reader sees
     printed = [float("%10.6f" % m) for m in masses]
     kw = {"atom_format": case["atom_format"]}
@@ -254,6 +258,8 @@ def run_case(case, ctx):
 
 def requirements(stats, tier):
     need = []
+    if stats.get("files_with_a_comment_behind_the_section_keywords") < (5 if tier == "quick" else 500):
+        need.append("files with a comment behind the section keywords: %d" % stats.get("files_with_a_comment_behind_the_section_keywords"))
     if stats.get("direct.single_calls") < 2000:
         need.append("fewer than 2000 single-mass guesses observed (%d)" % stats.get("direct.single_calls"))
     if stats.get("direct.expected_raise") < 100 or stats.get("direct.expected_element") < 1000:
